@@ -201,13 +201,28 @@ func selectLeaves(ls []cborLeaf, budget int) []cborLeaf {
 		// response arrays), first / middle / last of each
 		sort.SliceStable(shapes, func(i, j int) bool { return len(byShape[shapes[i]]) > len(byShape[shapes[j]]) })
 		out = out[:0]
-		for _, s := range shapes {
-			g := byShape[s]
-			pick := []cborLeaf{g[0], g[len(g)/2], g[len(g)-1]}
-			if len(g) < 3 {
-				pick = g
-			}
-			for _, l := range pick {
+		// round robin over the shapes so that every kind of component is hit: the last element
+		// of every group first (the one a verifier loop that forgets to accumulate still
+		// checks is the last; all others are the ones it would miss), then the first, then a
+		// middle one
+		for pass := 0; pass < 3; pass++ {
+			for _, s := range shapes {
+				g := byShape[s]
+				var l cborLeaf
+				switch pass {
+				case 0:
+					l = g[0]
+				case 1:
+					if len(g) < 2 {
+						continue
+					}
+					l = g[len(g)-1]
+				default:
+					if len(g) < 3 {
+						continue
+					}
+					l = g[len(g)/2]
+				}
 				if len(out) < budget {
 					out = append(out, l)
 				}
